@@ -68,7 +68,7 @@ class Gen:
         if k < 0.65 or depth > 1:
             return r.choice(names)
         if k < 0.9:
-            return f"{self.int_expr(scope, depth + 1)} {r.choice(['+', '-', '*'])} {self.int_expr(scope, depth + 1)}"
+            return f"{self.int_expr(scope, depth + 1)} {r.choice(['+', '-', '+', '*'])} {self.int_expr(scope, depth + 1)}"
         return r.choice([f"len(xs)", f"d.get('k', 0)", f"d['k']", f"{r.choice(names)} % 2", f"{r.choice(names)} % 3"])
 
     def cond_expr(self, scope=()):
@@ -101,11 +101,11 @@ class Gen:
         if k < 0.35:
             return f"{r.choice(INTS)} = {self.int_expr(scope)}"
         if k < 0.6:
-            return f"{r.choice(INTS)} {r.choice(['+=', '-=', '*='])} {self.int_expr(scope, 1)}"
+            return f"{r.choice(INTS)} {r.choice(['+=', '-=', '+='])} {self.int_expr(scope, 1)}"
         if k < 0.6 + 0.4 * self.p.inplace:
             return r.choice([f"xs.append({self.int_expr(scope, 1)})", f"d['k'] = {self.int_expr(scope, 1)}",
                              f"d['{r.choice('kmn')}'] = {self.int_expr(scope, 1)}", "xs[0] = a"])
-        return r.choice(["flag = not flag", f"s = s + '{r.choice('xyz')}'", "n = n + 1", "pass"])
+        return r.choice(["flag = not flag", "n = n + 1", "pass", "n = n + 1"])
 
     # ---- lines ----
     def text_line(self, scope=()):
@@ -213,7 +213,7 @@ class Gen:
         r = self.r
         self.tag("loop")
         var = r.choice(["i", "j", "it"])
-        coll = self.maybe_fault(r.choice(["list(xs)", "range(2)", "range(a)", "[1, 2, 3]", "xs + [7]", "list(d)"]), "loop-coll")
+        coll = self.maybe_fault(r.choice(["list(xs)", "range(2)", "range(a % 4)", "[1, 2, 3]", "xs + [7]", "list(d)"]), "loop-coll")
         out = [f"@for {var} in {coll}:"]
         sc = tuple(scope) + ((var,) if coll != "list(d)" else ())
         inner = []
@@ -251,10 +251,13 @@ class Gen:
             hdr += "(" + ", ".join(pn if d is None else f"{pn}={d}" for pn, d in ps) + ")"
             self.tag("params")
         scope = tuple(pn for pn, _ in ps)
-        out = [hdr]
+        out = [hdr, f"~ tr = _state.get('tr', []) + ['{name}']"]
         if name == "Start":
             out += ["~ a = 1", "~ b = 2", "~ c = 0", "~ n = 0", "~ xs = [1, 2]", "~ d = {'k': 1}", "~ s = 'q'",
                     "~ flag = True", "~ hk = 0"]
+        out.append(f"[{name}]" + (" {" + " ".join(scope) + "}" if False else ""))
+        if scope:
+            out.append("PARAMS " + " ".join("{" + v + "}" for v in scope))
         body = []
         for _ in range(r.randint(1, 4)):
             k = r.random()
@@ -305,14 +308,14 @@ class Gen:
             out.append(self.choice_line(scope))
         if name == "Start":
             for h in self.hooks[:1]:
-                out.insert(10, f"@hook turn_end {h}")
+                out.insert(11, f"@hook turn_end {h}")
             for j in self.joins:
                 out.append(f"+ [Enter {j}] -> {j}")
         return out
 
     def hook_passage(self, name):
         r = self.r
-        out = [f":: {name}", "~ hk = hk + 1"]
+        out = [f":: {name}", f"~ tr = _state.get('tr', []) + ['{name}']", "~ hk = hk + 1"]
         if self.p.hook_writes_choice_vars:
             out.append("~ a = a + 1")
         if self.p.faults and r.random() < self.p.faults:
@@ -330,7 +333,7 @@ class Gen:
     def join_passage(self, name):
         r = self.r
         self.tag("join")
-        out = [f":: {name}", "~ jn = 0", f"Intro of {name} {{a}}"]
+        out = [f":: {name}", f"~ tr = _state.get('tr', []) + ['{name}']", "~ jn = 0", f"[{name}]", f"Intro of {name} {{a}}"]
         nsec = r.randint(1, 3)
         for sec in range(nsec):
             for k in range(r.randint(1, 3)):
